@@ -104,6 +104,11 @@ def name_patterns(tier='quick', alpha='ab.'):
     # groups whose last alternative is longer than one character (a quantifier bound to the last atom only shows there)
     for k in '?*+@':
         pats += [(L('x'), ('ext', k, ((L('a'), L('b')),))), (('ext', k, ((L('a'), L('b')), (L('b'), L('a'), L('.')))), L('a')), (L('a'), ('ext', k, ((L('b'), ('ext', '+', ((L('a'), L('b')),))),)), L('.'))]
+    # a literal '@', '+' or '!' that opens no group, more literal text, then a wildcard (the failed group attempt must leave the parser state as it was)
+    for c in '@+!?*':
+        if c in '?*':
+            continue
+        pats += [(L(c), L('a'), star), (L(c), L('a'), q), (L(c), L('a'), ('br', False, (('ch', '.'), ('ch', 'x'))), L('b')), (L(c), L('a'), L('.'), star), (L(c), star), (L(c), L('a'), ('ext', '?', ((L('b'),),)))]
     pats += degraded()
     pats += [d + (L('b'),) for d in degraded()[:6]] + [(L('a'),) + d for d in degraded()[:6]]
     if tier != 'quick':
